@@ -6,8 +6,10 @@
      [place_order]: putting a node right after the partner of the nearest
      in-order left sibling keeps the in-order children of a matched pair in
      corresponding order;
-   - [Inv Pp Pa s]: the invariant (Pp = right nodes already placed, Pa = right
-     nodes whose children have been aligned): W well formed, the two maps are
+   - [Inv Pp Pa Pm s]: the invariant (Pp = right nodes already placed, Pa = right
+     nodes whose children have been aligned, Pm = right nodes under which in-order
+     marks may exist; section variable Orig = the nodes of the original left
+     document: every document node of W is original or matched): W well formed, the two maps are
      mutually inverse, matched nodes are in the documents and of the same kind,
      placed nodes sit under the partner of their parent, in-order marks come in
      matched pairs under matched parents, the in-order children of a matched
@@ -217,6 +219,8 @@ Section Inv.
 Variable R : forest.
 Variables rootL rootR : id.
 Hypothesis HwfR : wf_forest R rootR.
+(* the nodes of the original left document *)
+Variable Orig : id -> Prop.
 
 Record Inv (Pp Pa Pm : list id) (s : st) : Prop := {
   I_wf : wf_forest (W s) rootL;
@@ -239,7 +243,8 @@ Record Inv (Pp Pa Pm : list id) (s : st) : Prop := {
   I_o2 : forall w x, r2l s x = Some w ->
             map (l2r s) (filter (inoL s) (fkids (W s) w)) = map Some (filter (inoR s) (fkids R x));
   I_o3 : forall x w c y, In x Pa -> r2l s x = Some w -> In c (fkids (W s) w) ->
-            l2r s c = Some y -> In y (fkids R x) -> inoL s c = true
+            l2r s c = Some y -> In y (fkids R x) -> inoL s c = true;
+  I_orig : forall n, desc (W s) rootL n -> Orig n \/ l2r s n <> None
 }.
 
 Lemma R_lt x : desc R rootR x -> x < fnext R.
@@ -355,9 +360,10 @@ Lemma Inv_place Pp Pa Pm s s' x y w c pos s1 s2 :
   (forall n, desc (W s) rootL n -> desc (W s') rootL n) -> desc (W s') rootL c ->
   (forall m, m <> c -> flab (W s') m = flab (W s) m) ->
   is_comment (ltag (flab (W s') c)) = is_comment (ltag (flab R y)) ->
+  (forall n, desc (W s') rootL n -> n = c \/ desc (W s) rootL n) ->
   Inv Pp Pa Pm s'.
 Proof.
-  intros HI HyP Hy HxM Ek Hw HLc HRy Hpos Hcase Hlc Hry Hl' Hr' HmL HmR Hwf' K2 K3 K6 K6c K7 K7c.
+  intros HI HyP Hy HxM Ek Hw HLc HRy Hpos Hcase Hlc Hry Hl' Hr' HmL HmR Hwf' K2 K3 K6 K6c K7 K7c K8.
   assert (HxP : In x Pp) by (apply (I_Pm _ _ _ _ HI); exact HxM).
   assert (Hxlt : x < fnext R) by (apply R_lt; eapply I_Pp; eauto).
   destruct (Inv_r2l_lt _ _ _ _ HI _ _ Hw) as [Hwlt _].
@@ -459,6 +465,9 @@ Proof.
     apply C in Hl as [[? _]|[_ Hl]]; [contradiction|].
     eapply (I_o3 _ _ _ _ HI); eauto. apply F in Hc'; [exact Hc'| |exact Hne].
     apply (Inv_r2l_lt _ _ _ _ HI _ _ H).
+  - intros n Hn. destruct (K8 n Hn) as [->|Hd]; [right; congruence|].
+    destruct (I_orig _ _ _ _ HI n Hd) as [Ho|Hm]; [left; exact Ho|right].
+    destruct (l2r s n) as [r|] eqn:En; [|congruence]. rewrite (A n r En). discriminate.
 Qed.
 
 (* label-only changes *)
@@ -486,6 +495,7 @@ Proof.
   - apply (I_o1L _ _ _ _ HI).
   - apply (I_o2 _ _ _ _ HI).
   - apply (I_o3 _ _ _ _ HI).
+  - intros n Hn. apply (I_orig _ _ _ _ HI). eapply desc_ext; [|exact Hn]. intros p. rewrite Ek. reflexivity.
 Qed.
 
 (* y has been placed *)
@@ -513,6 +523,7 @@ Proof.
   - apply (I_o1L _ _ _ _ HI).
   - apply (I_o2 _ _ _ _ HI).
   - apply (I_o3 _ _ _ _ HI).
+  - apply (I_orig _ _ _ _ HI).
 Qed.
 
 (* the children of y have been aligned *)
@@ -538,6 +549,7 @@ Proof.
   - apply (I_o1L _ _ _ _ HI).
   - apply (I_o2 _ _ _ _ HI).
   - intros x w c z Hx. apply in_app_or in Hx as [Hx|[<-|[]]]; [eapply I_o3; eauto|apply H3].
+  - apply (I_orig _ _ _ _ HI).
 Qed.
 
 Lemma map_eq_Some_In {A B} (f : A -> option B) : forall a b, map f a = map Some b ->
@@ -625,6 +637,7 @@ Proof.
           apply (wf_uparent R rootR HwfR x rn v); assumption. }
       apply (I_o2 _ _ _ _ HI). exact Hw.
   - intros x w c y Hx Hw Hc Hl Hy. rewrite HmL. rewrite (I_o3 _ _ _ _ HI x w c y); auto.
+  - apply (I_orig _ _ _ _ HI).
 Qed.
 
 (* the ancestors of the partner of a placed node are partners of its ancestors *)
@@ -699,7 +712,7 @@ Qed.
 
 Lemma new_act_label t pos n y :
   let l := snd (new_act R t pos n y) in
-  is_comment (ltag l) = is_comment (ltag (flab R y)) /\ lattrs l = [] /\ ltail l = None /\
+  ltag l = ltag (flab R y) /\ lattrs l = [] /\ ltail l = None /\
   (is_comment (ltag l) = false -> ltag l = ltag (flab R y) /\ ltext l = None) /\
   (is_comment (ltag l) = true -> ltext l = ltext (flab R y)).
 Proof.
@@ -757,7 +770,8 @@ Proof.
     - intros m Hm. rewrite HW'. eapply desc_ins; eauto. apply (wf_root_lt _ _ Hwf).
     - rewrite HW'. eapply desc_ins_new; eauto. apply (wf_root_lt _ _ Hwf).
     - intros m Hm. rewrite HW', flab_ins. apply Nat.eqb_neq in Hm. fold n. rewrite Hm. reflexivity.
-    - rewrite HW', flab_ins. fold n. rewrite Nat.eqb_refl. exact L1. }
+    - rewrite HW', flab_ins. fold n. rewrite Nat.eqb_refl. rewrite L1. reflexivity.
+    - intros m Hm. rewrite HW' in Hm. apply (desc_ins_inv (W s) rootL lab w pos m Hwf Hwlt Hm). }
   split; [|split].
   - apply (Inv_extend Pp Pa Pm s' y n); [exact HInv|exact Hy|cbn; apply upd_same|].
     intros xp Hxp Hin. assert (xp = x) by (apply (wf_uparent R rootR HwfR xp x y); assumption). subst xp.
@@ -815,6 +829,7 @@ Proof.
     + rewrite HW'. apply alive_move; assumption.
     + intros m _. rewrite HW', flab_move. reflexivity.
     + rewrite HW', flab_move. apply (I_cmt _ _ _ _ HI c y Hlc).
+    + intros m Hm. right. rewrite HW' in Hm. apply (desc_move_inv (W s) rootL c w pos m Hwf Hwalive Hcalive Hm).
   - cbn [spec_apply].
     rewrite (proj2 (alive_iff _ _ c Hwf) Hcalive), (proj2 (alive_iff _ _ w Hwf) Hwalive).
     replace (Nat.eqb c rootL) with false by (symmetry; apply Nat.eqb_neq; exact Hcroot).
@@ -844,6 +859,7 @@ Proof.
   - apply (I_o1L _ _ _ _ HI).
   - apply (I_o2 _ _ _ _ HI).
   - apply (I_o3 _ _ _ _ HI).
+  - apply (I_orig _ _ _ _ HI).
 Qed.
 
 Lemma unmarked_before_align Pp Pa Pm s rn :
